@@ -57,6 +57,9 @@ def witnesses(stats):
         ("string-unicode-escape-incomplete", [y == z3.Concat(bs, z3.StringVal("u{"))]),
         ("string-single-quote", [z3.Contains(y, z3.StringVal("'")), z3.Length(y) == 1]),
         ("string-long-bracket-close", [y == z3.StringVal("]]")]),
+        # classes that are empty for the pinned token definitions; if a change of token.rs makes them inhabited the emitter has to cope
+        ("string-containing-a-double-quote", [z3.Contains(y, z3.StringVal('"')), z3.Length(y) <= 4]),
+        ("string-ending-in-escaped-backslash-quote", [z3.SuffixOf(z3.Concat(bs, z3.StringVal('"')), y), z3.Length(y) <= 4]),
         ("string-non-ascii", [y == z3.StringVal("ä€")]),
         ("string-latin1-char", [z3.Length(y) == 1, z3.InRe(y, z3.Range(chr(0xa1), chr(0xff)))]),
         ("string-char-above-255", [z3.Length(y) == 1, z3.InRe(y, z3.Range(chr(0x100), chr(0x2fff)))]),
